@@ -47,10 +47,10 @@ theorem unspaced_append (a b : List RTok) : unspaced (a ++ b) = unspaced a ++ un
 theorem isIn_false_of_cpp {op : BOp} {s : Str} (h : op.cpp = some s) : isIn op = false := by
   cases op <;> first | rfl | cases h
 
-/-- an infix operator of the core is rendered as `left SYM right` -/
-theorem unspaced_renderBinary (op : BOp) (dict : Bool) (lty rty : Ty) (l r : List RTok) (s : Str)
+/-- an infix operator of the core is rendered as `left SYM right`, blank-separated -/
+theorem renderBinary_raw (op : BOp) (dict : Bool) (lty rty : Ty) (l r : List RTok) (s : Str)
     (hs : op.cpp = some s) (hf : (op == .mod && (lty.isFloat || rty.isFloat)) = false) :
-    unspaced (renderBinary op dict lty rty l r) = unspaced l ++ CTok.sym s :: unspaced r := by
+    renderBinary op dict lty rty l r = l ++ (.sp :: .t (.sym s) :: .sp :: r) := by
   unfold renderBinary
   rw [isIn_false_of_cpp hs]
   simp only [Bool.false_eq_true, ↓reduceIte, render, select_binary]
@@ -58,8 +58,14 @@ theorem unspaced_renderBinary (op : BOp) (dict : Bool) (lty rty : Ty) (l r : Lis
   case mod =>
     have hfl : (lty.isFloat || rty.isFloat) = false := by simpa using hf
     simp only [binShape, hfl]
-    simp only [Bool.false_eq_true, ↓reduceIte, inst_else, unspaced_append, unspaced, List.append_nil, BOp.tok, List.nil_append, List.cons_append]
-  all_goals simp only [binShape, inst_else, inst_fixed, unspaced_append, unspaced, List.append_nil, BOp.tok, List.nil_append, List.cons_append]
+    simp only [Bool.false_eq_true, ↓reduceIte, inst_else, List.append_nil, BOp.tok, List.nil_append, List.cons_append]
+  all_goals simp only [binShape, inst_else, inst_fixed, List.append_nil, BOp.tok, List.nil_append, List.cons_append]
+
+theorem unspaced_renderBinary (op : BOp) (dict : Bool) (lty rty : Ty) (l r : List RTok) (s : Str)
+    (hs : op.cpp = some s) (hf : (op == .mod && (lty.isFloat || rty.isFloat)) = false) :
+    unspaced (renderBinary op dict lty rty l r) = unspaced l ++ CTok.sym s :: unspaced r := by
+  rw [renderBinary_raw op dict lty rty l r s hs hf]
+  simp only [unspaced_append, unspaced]
 
 theorem toPrec_sym_of_cpp {op : BOp} {s : Str} (h : op.cpp = some s) : CTok.toPrec (.sym s) = .op op.code := by
   cases op <;> simp only [BOp.cpp, Option.some.injEq, reduceCtorEq] at h <;> subst h <;> rfl
@@ -69,41 +75,69 @@ theorem toPrec_bang : CTok.toPrec (.sym ['!']) = .op bangCode := rfl
 theorem toPrec_lp : CTok.toPrec (.sym ['(']) = .lp := rfl
 theorem toPrec_rp : CTok.toPrec (.sym [')']) = .rp := rfl
 
-/-! ## emission = printing Python's grouping (before C++ lexing) -/
+/-! ## emission = printing the guarded tree (before C++ lexing) -/
+
+theorem guard_print {r : List RTok} {e : Expr} (b : Bool) (h : (unspaced r).map CTok.toPrec = print e) :
+    (unspaced (guardIf b r)).map CTok.toPrec = print (wrapE b e) := by
+  cases b
+  · simpa [guardIf, wrapE] using h
+  · simp only [guardIf, wrapE, ↓reduceIte, wrapParen, unspaced, unspaced_append, List.map_cons, List.map_append, List.map_nil, h, print,
+      toPrec_lp, toPrec_rp]
 
 mutual
 theorem emit_print : ∀ (n : Node), core n = true →
-    (unspaced (emitRaw n)).map CTok.toPrec = print (pyExprL n)
+    (unspaced (emitRaw n)).map CTok.toPrec = print (cppExprL n)
   | .atom _ _, _ => rfl
   | .group e, h => by
     have ih := emit_print e (by simpa [core] using h)
-    simp only [emitRaw, render_group, unspaced, unspaced_append, List.map_cons, List.map_append, List.map_nil, ih, pyExprL, print,
+    simp only [emitRaw, render_group, unspaced, unspaced_append, List.map_cons, List.map_append, List.map_nil, ih, cppExprL, print,
       toPrec_lp, toPrec_rp]
   | .factor op e, h => by
-    have ih := emit_print e (by simpa [core] using h)
-    simp only [emitRaw, renderUnary_eq, List.append_nil, unspaced, List.map_cons, ih, pyExprL, print, toPrec_uop]
+    have ih := guard_print (sameSign op e) (emit_print e (by simpa [core] using h))
+    simp only [emitRaw, renderUnary_eq, List.append_nil, unspaced, List.map_cons, ih, cppExprL, print, toPrec_uop]
   | .notCompare e, h => by
-    have ih := emit_print e (by simpa [core] using h)
-    simp only [emitRaw, renderUnary_eq, List.append_nil, unspaced, List.map_cons, ih, pyExprL, print, toPrec_bang]
+    have ih := guard_print (isRegrouped e ['!']) (emit_print e (by simpa [core] using h))
+    simp only [emitRaw, renderUnary_eq, List.append_nil, unspaced, List.map_cons, ih, cppExprL, print, toPrec_bang]
   | .chain _ fty first rest, h => by
     simp only [core, Bool.and_eq_true] at h
-    have ih := emit_print first h.1
-    simp only [emitRaw, pyExprL]
+    have ih := guard_print (match rest.firstTok with | some o => isRegrouped first o | none => false) (emit_print first h.1)
+    simp only [emitRaw, cppExprL]
     exact emitRest_print rest _ fty _ h.2 ih
   | .ternary _ _ _, h => by simp [core] at h
 theorem emitRest_print : ∀ (rest : Rest) (prim : List RTok) (pty : Ty) (acc : Expr), coreRest pty rest = true →
     (unspaced prim).map CTok.toPrec = print acc →
-    (unspaced (emitRest prim pty rest)).map CTok.toPrec = print (pyRestL acc rest)
-  | .nil, _, _, _, _, hp => by simpa [emitRest, pyRestL] using hp
+    (unspaced (emitRest prim pty rest)).map CTok.toPrec = print (cppRestL acc rest)
+  | .nil, _, _, _, _, hp => by simpa [emitRest, cppRestL] using hp
   | .cons op dict ty e rest, prim, pty, acc, h, hp => by
     simp only [coreRest, Bool.and_eq_true, Bool.not_eq_true'] at h
     obtain ⟨⟨⟨hc, hf⟩, he⟩, hr⟩ := h
     obtain ⟨s, hs⟩ := Option.isSome_iff_exists.mp hc
-    have ih := emit_print e he
-    simp only [emitRest, pyRestL]
+    have ih := guard_print (isRegrouped e op.tok) (emit_print e he)
+    simp only [emitRest, cppRestL]
     apply emitRest_print rest _ ty _ hr
-    rw [unspaced_renderBinary op dict pty ty prim (emitRaw e) s hs hf]
+    rw [unspaced_renderBinary op dict pty ty prim _ s hs hf]
     simp only [List.map_append, List.map_cons, hp, ih, print, toPrec_sym_of_cpp hs]
+end
+
+/-! ## the guards add parentheses only: the emitted tree is Python's grouping up to `paren` -/
+
+theorem strip_wrapE (b : Bool) (e : Expr) : strip (wrapE b e) = strip e := by cases b <;> rfl
+
+mutual
+theorem strip_cppExprL : ∀ (n : Node), strip (cppExprL n) = strip (pyExprL n)
+  | .atom _ _ => rfl
+  | .group e => by simp only [cppExprL, pyExprL, strip, strip_cppExprL e]
+  | .factor op e => by simp only [cppExprL, pyExprL, strip, strip_wrapE, strip_cppExprL e]
+  | .notCompare e => by simp only [cppExprL, pyExprL, strip, strip_wrapE, strip_cppExprL e]
+  | .chain _ _ first rest => by
+    simp only [cppExprL, pyExprL]
+    exact strip_cppRestL rest _ _ (by rw [strip_wrapE, strip_cppExprL first])
+  | .ternary _ _ _ => rfl
+theorem strip_cppRestL : ∀ (rest : Rest) (a b : Expr), strip a = strip b → strip (cppRestL a rest) = strip (pyRestL b rest)
+  | .nil, _, _, h => by simpa [cppRestL, pyRestL] using h
+  | .cons op _ _ e rest, a, b, h => by
+    simp only [cppRestL, pyRestL]
+    exact strip_cppRestL rest _ _ (by simp only [strip, h, strip_wrapE, strip_cppExprL e])
 end
 
 /-! ## C++ lexing -/
@@ -157,6 +191,202 @@ theorem cppLex_eq_of_length (r : List RTok) (h : (cppLex r).length = (unspaced r
 theorem noFuse_iff (n : Node) : noFuse n = true ↔ cppLex (emitRaw n) = unspaced (emitRaw n) := by
   simp [noFuse]
 
+/-! ## the guarded emitter never lets two signs touch -/
+
+def isSign (k : CTok) : Bool := decide (k = symMinus) || decide (k = symPlus)
+
+def okPair (a b : CTok) : Bool := !(decide (a = symMinus ∧ b = symMinus)) && !(decide (a = symPlus ∧ b = symPlus))
+
+/-- no two adjacent (blank-free) tokens are the same sign; `prev` as in `cppLexGo` -/
+def fuseFree : Option CTok → List RTok → Bool
+  | _, [] => true
+  | _, .sp :: ts => fuseFree none ts
+  | prev, .t b :: ts => (match prev with | some a => okPair a b | none => true) && fuseFree (some b) ts
+
+def lastTok : Option CTok → List RTok → Option CTok
+  | p, [] => p
+  | _, .sp :: ts => lastTok none ts
+  | _, .t b :: ts => lastTok (some b) ts
+
+theorem cppLexGo_of_fuseFree (prev : Option CTok) (r : List RTok) (h : fuseFree prev r = true) :
+    cppLexGo prev r = prev.toList ++ unspaced r := by
+  induction r generalizing prev with
+  | nil => simp [cppLexGo, unspaced]
+  | cons x xs ih =>
+    cases x with
+    | sp => simp only [fuseFree] at h; simp [cppLexGo, unspaced, ih none h]
+    | t b =>
+      simp only [fuseFree, Bool.and_eq_true] at h
+      cases prev with
+      | none => simp [cppLexGo, unspaced, ih (some b) h.2]
+      | some a =>
+        have hp := h.1
+        simp only [okPair, Bool.and_eq_true, Bool.not_eq_true', decide_eq_false_iff_not] at hp
+        simp only [cppLexGo, unspaced, if_neg hp.1, if_neg hp.2, ih (some b) h.2]
+        simp
+
+theorem fuseFree_append (prev : Option CTok) (a b : List RTok) :
+    fuseFree prev (a ++ b) = (fuseFree prev a && fuseFree (lastTok prev a) b) := by
+  induction a generalizing prev with
+  | nil => simp [fuseFree, lastTok]
+  | cons x xs ih => cases x <;> simp [fuseFree, lastTok, ih, Bool.and_assoc]
+
+theorem lastTok_append (prev : Option CTok) (a b : List RTok) : lastTok prev (a ++ b) = lastTok (lastTok prev a) b := by
+  induction a generalizing prev with
+  | nil => rfl
+  | cons x xs ih => cases x <;> simp [lastTok, ih]
+
+/-- a well-behaved emitted fragment: no fused signs inside, starts with a token, ends with a token that is not a sign -/
+structure Good (r : List RTok) : Prop where
+  free : fuseFree none r = true
+  starts : ∃ b ts, r = .t b :: ts
+  ends : ∀ p, ∃ k, lastTok p r = some k ∧ isSign k = false
+
+def headTok : List RTok → Option CTok
+  | .t b :: _ => some b
+  | _ => none
+
+theorem fuseFree_some_of_good {r : List RTok} (g : Good r) (a : CTok) :
+    fuseFree (some a) r = (match headTok r with | some b => okPair a b | none => true) := by
+  obtain ⟨b, ts, rfl⟩ := g.starts
+  have := g.free
+  simp only [fuseFree, Bool.true_and] at this
+  simp [fuseFree, headTok, this]
+
+theorem okPair_of_not_sign_left {a : CTok} (h : isSign a = false) (b : CTok) : okPair a b = true := by
+  simp only [isSign, Bool.or_eq_false_iff, decide_eq_false_iff_not] at h
+  simp [okPair, h.1, h.2]
+
+theorem fuseFree_after_closed {r : List RTok} (g : Good r) {a : CTok} (h : isSign a = false) : fuseFree (some a) r = true := by
+  rw [fuseFree_some_of_good g]
+  cases headTok r <;> simp [okPair_of_not_sign_left h]
+
+theorem good_wrapParen {r : List RTok} (g : Good r) : Good (wrapParen r) := by
+  refine ⟨?_, ⟨_, _, rfl⟩, fun p => ⟨.sym [')'], ?_, by decide⟩⟩
+  · simp only [wrapParen, fuseFree, Bool.true_and, fuseFree_append, Bool.and_eq_true]
+    refine ⟨fuseFree_after_closed g (by decide), ?_⟩
+    obtain ⟨k, hk, hs⟩ := g.ends (some (.sym ['(']))
+    simp [hk, okPair_of_not_sign_left hs]
+  · simp [wrapParen, lastTok, lastTok_append]
+
+theorem good_guardIf {r : List RTok} (g : Good r) (b : Bool) : Good (guardIf b r) := by
+  cases b
+  · simpa [guardIf] using g
+  · simpa [guardIf] using good_wrapParen g
+
+theorem good_atom (id : Nat) (t : Str) : Good [.t (.atom id t)] :=
+  ⟨rfl, ⟨_, _, rfl⟩, fun _ => ⟨_, rfl, by simp [isSign, symMinus, symPlus]⟩⟩
+
+/-- prefix operator directly before a fragment whose first token it cannot fuse with -/
+theorem good_unary {v : List RTok} (g : Good v) (op : Str)
+    (h : ∀ b, headTok v = some b → okPair (.sym op) b = true) : Good (.t (.sym op) :: (v ++ [])) := by
+  rw [List.append_nil]
+  refine ⟨?_, ⟨_, _, rfl⟩, fun p => ?_⟩
+  · simp only [fuseFree, Bool.true_and]
+    rw [fuseFree_some_of_good g]
+    cases hh : headTok v with
+    | none => rfl
+    | some b => exact h b hh
+  · obtain ⟨k, hk, hs⟩ := g.ends (some (.sym op))
+    exact ⟨k, by simpa [lastTok] using hk, hs⟩
+
+theorem good_binary {l r : List RTok} (gl : Good l) (gr : Good r) (s : Str) : Good (l ++ (.sp :: .t (.sym s) :: .sp :: r)) := by
+  refine ⟨?_, ?_, fun p => ?_⟩
+  · rw [fuseFree_append, gl.free]
+    simp only [Bool.true_and, fuseFree]
+    exact gr.free
+  · obtain ⟨b, ts, rfl⟩ := gl.starts
+    exact ⟨_, _, rfl⟩
+  · obtain ⟨k, hk, hs⟩ := gr.ends none
+    refine ⟨k, ?_, hs⟩
+    rw [lastTok_append]
+    simpa [lastTok] using hk
+
+theorem headTok_wrapParen (r : List RTok) : headTok (wrapParen r) = some (.sym ['(']) := rfl
+
+theorem okPair_lp (a : CTok) : okPair a (.sym ['(']) = true := by
+  simp [okPair, symMinus, symPlus]
+
+theorem okPair_atom (a : CTok) (id : Nat) (t : Str) : okPair a (.atom id t) = true := by
+  simp [okPair, symMinus, symPlus]
+
+theorem okPair_bang (b : CTok) : okPair (.sym ['!']) b = true := by
+  simp [okPair, symMinus, symPlus]
+
+theorem okPair_uop_of_not_sameSign {op op' : UOp} (h : ((op == .pos || op == .neg) && op == op') = false) :
+    okPair (.sym op.tok) (.sym op'.tok) = true := by
+  cases op <;> cases op' <;> first | (simp at h; done) | decide
+
+theorem wf_chain_level_le {lv : Nat} {fty : Ty} {f : Node} {r : Rest} (h : wf (.chain lv fty f r) = true) : lv ≤ 9 := by
+  simp only [wf, Bool.and_eq_true, decide_eq_true_eq] at h
+  cases r with
+  | nil => simp [Rest.length] at h
+  | cons op d t e r' =>
+    simp only [wfRest, Bool.and_eq_true, decide_eq_true_eq] at h
+    have := h.2.1.1.1.1
+    cases op <;> simp only [BOp.level] at this <;> omega
+
+mutual
+theorem good_emitRaw : ∀ (n : Node), core n = true → wf n = true → Good (emitRaw n)
+  | .atom id t, _, _ => good_atom id t
+  | .group e, hc, hw => by
+    have ih := good_emitRaw e (by simpa [core] using hc) (by simpa [wf] using hw)
+    simpa [emitRaw, render_group, wrapParen] using good_wrapParen ih
+  | .factor op e, hc, hw => by
+    simp only [wf, Bool.and_eq_true, decide_eq_true_eq] at hw
+    have ih := good_emitRaw e (by simpa [core] using hc) hw.2
+    simp only [emitRaw, renderUnary_eq]
+    apply good_unary (good_guardIf ih _)
+    intro b hb
+    cases hs : sameSign op e with
+    | true => simp only [hs, guardIf, ↓reduceIte, headTok_wrapParen, Option.some.injEq] at hb; subst hb; exact okPair_lp _
+    | false =>
+      simp only [hs, guardIf, Bool.false_eq_true, ↓reduceIte] at hb
+      cases e with
+      | atom id t => simp only [emitRaw, headTok, Option.some.injEq] at hb; subst hb; exact okPair_atom _ _ _
+      | group e' => simp only [emitRaw, render_group, headTok, Option.some.injEq] at hb; subst hb; exact okPair_lp _
+      | factor op' e' =>
+        simp only [emitRaw, renderUnary_eq, headTok, Option.some.injEq] at hb; subst hb
+        exact okPair_uop_of_not_sameSign (by simpa [sameSign] using hs)
+      | notCompare e' => simp [topLevel, factorLevel, notLevel] at hw
+      | chain lv fty f r =>
+        have := wf_chain_level_le hw.2
+        simp only [topLevel, factorLevel] at hw; omega
+      | ternary p c s => simp [core] at hc
+  | .notCompare e, hc, hw => by
+    simp only [wf, Bool.and_eq_true, decide_eq_true_eq] at hw
+    have ih := good_emitRaw e (by simpa [core] using hc) hw.2
+    simp only [emitRaw, renderUnary_eq]
+    exact good_unary (good_guardIf ih _) _ (fun b _ => okPair_bang b)
+  | .chain lv fty first rest, hc, hw => by
+    simp only [core, Bool.and_eq_true] at hc
+    simp only [wf, Bool.and_eq_true, decide_eq_true_eq] at hw
+    obtain ⟨⟨⟨⟨_, _⟩, hwf⟩, _⟩, hwr⟩ := hw
+    have ih := good_emitRaw first hc.1 hwf
+    simp only [emitRaw]
+    exact good_emitRest rest lv fty _ hc.2 hwr (good_guardIf ih _)
+  | .ternary _ _ _, hc, _ => by simp [core] at hc
+theorem good_emitRest : ∀ (rest : Rest) (lv : Nat) (pty : Ty) (prim : List RTok), coreRest pty rest = true → wfRest lv rest = true →
+    Good prim → Good (emitRest prim pty rest)
+  | .nil, _, _, _, _, _, g => by simpa [emitRest] using g
+  | .cons op dict ty e rest, lv, pty, prim, hc, hw, g => by
+    simp only [coreRest, Bool.and_eq_true, Bool.not_eq_true'] at hc
+    obtain ⟨⟨⟨hcpp, hf⟩, hce⟩, hcr⟩ := hc
+    simp only [wfRest, Bool.and_eq_true, decide_eq_true_eq] at hw
+    obtain ⟨⟨⟨⟨_, _⟩, _⟩, hwe⟩, hwr⟩ := hw
+    obtain ⟨s, hs⟩ := Option.isSome_iff_exists.mp hcpp
+    have ih := good_emitRaw e hce hwe
+    simp only [emitRest]
+    apply good_emitRest rest lv ty _ hcr hwr
+    rw [renderBinary_raw op dict pty ty prim _ s hs hf]
+    exact good_binary g (good_guardIf ih _) s
+end
+
+/-- for grammar-producible core nodes C++ maximal munch merges nothing: the lexed tokens are the emitted tokens -/
+theorem cppLex_emitRaw (n : Node) (hc : core n = true) (hw : wf n = true) : cppLex (emitRaw n) = unspaced (emitRaw n) := by
+  have := cppLexGo_of_fuseFree none _ (good_emitRaw n hc hw).free
+  simpa [cppLex] using this
+
 /-! ## facts about the two tables (closed computations) -/
 
 theorem pyOps_bin_of_cpp {op : BOp} {s : Str} (h : op.cpp = some s) : pyOps.bin op.code = some op.level := by
@@ -170,6 +400,239 @@ theorem mem_vocabulary_bin {op : BOp} {s : Str} (h : op.cpp = some s) : Head.bin
 
 theorem mem_vocabulary_uop (op : UOp) : Head.pre op.code ∈ vocabulary := by cases op <;> decide
 theorem mem_vocabulary_bang : Head.pre bangCode ∈ vocabulary := by decide
+
+/-! ## the emitter's precedence table (translated from py2cpp.py) against the C++ grammar table -/
+
+def BOp.prec (op : BOp) : Nat := (lookup op.tok cppPrecBinary).getD 0
+
+/-- every infix operator of the core is in `CppOperatorPrecedences.binary`, and its precedence there is the level of its
+    C++ symbol in `cppTable` (+1) — `decide` over the translated table -/
+theorem prec_facts {op : BOp} {s : Str} (h : op.cpp = some s) :
+    lookup op.tok cppPrecBinary = some op.prec ∧ cppOps.bin op.code = some (op.prec - 1) ∧ 1 ≤ op.prec ∧ op.prec ≤ 10 := by
+  cases op <;> simp only [BOp.cpp, reduceCtorEq] at h <;> exact ⟨rfl, rfl, by decide, by decide⟩
+
+theorem precOf_tok {op : BOp} {s : Str} (h : op.cpp = some s) : precOf op.tok = op.prec := by
+  simp [precOf, (prec_facts h).1]
+
+theorem precOf_bang : precOf ['!'] = 11 := rfl
+theorem cppOps_pre_uop (op : UOp) : cppOps.pre op.code = some 10 := by cases op <;> rfl
+theorem cppOps_pre_bang : cppOps.pre bangCode = some 10 := rfl
+
+theorem level_le_nine (op : BOp) : op.level ≤ 9 := by cases op <;> decide
+
+/-- operators of one Python level (other than the comparisons) share their C++ precedence -/
+theorem prec_eq_of_level {op op' : BOp} {s s' : Str} (h : op.cpp = some s) (h' : op'.cpp = some s')
+    (hl : op.level = op'.level) (hc : op.level ≠ cmpLevel) : op.prec = op'.prec := by
+  cases op <;> simp only [BOp.cpp, reduceCtorEq] at h <;> cases op' <;> simp only [BOp.cpp, reduceCtorEq] at h' <;>
+    first | rfl | (exact absurd hl (by decide)) | (exact absurd rfl hc)
+
+/-- operators of different Python levels never share a C++ precedence -/
+theorem prec_ne_of_level {op op' : BOp} {s s' : Str} (h : op.cpp = some s) (h' : op'.cpp = some s')
+    (hl : op.level ≠ op'.level) : op.prec ≠ op'.prec := by
+  cases op <;> simp only [BOp.cpp, reduceCtorEq] at h <;> cases op' <;> simp only [BOp.cpp, reduceCtorEq] at h' <;>
+    first | decide | (exact absurd rfl hl)
+
+def Rest.lastOp : Rest → Option BOp
+  | .nil => none
+  | .cons op _ _ _ rest => match rest.lastOp with
+    | some o => some o
+    | none => some op
+
+theorem head_cppRestL : ∀ (rest : Rest) (acc : Expr),
+    head (cppRestL acc rest) = (match rest.lastOp with | some o => .bin o.code | none => head acc)
+  | .nil, _ => rfl
+  | .cons op d t e rest, acc => by
+    simp only [cppRestL, Rest.lastOp, head_cppRestL rest]
+    cases rest.lastOp <;> rfl
+
+theorem minList_le {l : List Nat} {x : Nat} (h : x ∈ l) : minList l ≤ x := by
+  induction l with
+  | nil => cases h
+  | cons y ys ih =>
+    cases ys with
+    | nil => simp only [List.mem_singleton] at h; subst h; exact Nat.le_refl _
+    | cons z zs =>
+      simp only [minList]
+      rcases List.mem_cons.mp h with rfl | h
+      · exact Nat.min_le_left _ _
+      · exact Nat.le_trans (Nat.min_le_right _ _) (ih h)
+
+theorem lastOp_facts : ∀ (rest : Rest) (lv : Nat) (pty : Ty) (o : BOp), coreRest pty rest = true → wfRest lv rest = true →
+    rest.lastOp = some o → o.cpp.isSome = true ∧ o.level = lv ∧ o.prec ∈ restPrecs rest
+  | .nil, _, _, _, _, _, hl => by cases hl
+  | .cons op d t e rest, lv, pty, o, hc, hw, hl => by
+    simp only [coreRest, Bool.and_eq_true, Bool.not_eq_true'] at hc
+    simp only [wfRest, Bool.and_eq_true, decide_eq_true_eq] at hw
+    obtain ⟨s, hs⟩ := Option.isSome_iff_exists.mp hc.1.1.1
+    simp only [restPrecs, (prec_facts hs).1]
+    simp only [Rest.lastOp] at hl
+    cases hlo : rest.lastOp with
+    | none => rw [hlo] at hl; cases hl; exact ⟨hc.1.1.1, hw.1.1.1.1, List.mem_cons_self⟩
+    | some o' =>
+      rw [hlo] at hl; cases hl
+      have := lastOp_facts rest lv t o hc.2 hw.2 hlo
+      exact ⟨this.1, this.2.1, List.mem_cons_of_mem _ this.2.2⟩
+
+theorem lastOp_isSome_of_length : ∀ (rest : Rest), 1 ≤ rest.length → ∃ o, rest.lastOp = some o
+  | .nil, h => by simp [Rest.length] at h
+  | .cons op d t e rest, _ => by
+    simp only [Rest.lastOp]
+    cases rest.lastOp with
+    | none => exact ⟨op, rfl⟩
+    | some o => exact ⟨o, rfl⟩
+
+/-- what the head of the emitted tree of a node can be, and what "not regrouped" tells about it -/
+def HeadOK (n : Node) : Prop :=
+  head (cppExprL n) = .leaf ∨ (∃ c, head (cppExprL n) = .pre c ∧ cppOps.pre c = some 10) ∨
+  (∃ (o : BOp) (s : Str), head (cppExprL n) = .bin o.code ∧ o.cpp = some s ∧ o.level = topLevel n ∧
+    ∀ tok, isRegrouped n tok = false → precOf tok ≤ o.prec)
+
+theorem head_wrapE_true (e : Expr) : head (wrapE true e) = .leaf := rfl
+
+theorem headOK (n : Node) (hc : core n = true) (hw : wf n = true) : HeadOK n := by
+  cases n with
+  | atom id t => exact Or.inl rfl
+  | group e => exact Or.inl rfl
+  | factor op e => exact Or.inr (Or.inl ⟨op.code, rfl, cppOps_pre_uop op⟩)
+  | notCompare e => exact Or.inr (Or.inl ⟨bangCode, rfl, cppOps_pre_bang⟩)
+  | ternary p c s => simp [core] at hc
+  | chain lv fty first rest =>
+    simp only [core, Bool.and_eq_true] at hc
+    simp only [wf, Bool.and_eq_true, decide_eq_true_eq] at hw
+    obtain ⟨⟨⟨_, _⟩, hlen⟩, hwr⟩ := hw
+    obtain ⟨o, hlo⟩ := lastOp_isSome_of_length rest hlen
+    · obtain ⟨hcore, hlv, hmem⟩ := lastOp_facts rest lv fty o hc.2 hwr hlo
+      obtain ⟨s, hs⟩ := Option.isSome_iff_exists.mp hcore
+      refine Or.inr (Or.inr ⟨o, s, ?_, hs, hlv, ?_⟩)
+      · simp only [cppExprL, head_cppRestL, hlo]
+      · intro tok hreg
+        simp only [isRegrouped] at hreg
+        split at hreg
+        · next hemp => simp only [List.isEmpty_iff] at hemp; rw [hemp] at hmem; cases hmem
+        · have := minList_le hmem
+          simp only [decide_eq_false_iff_not, Nat.not_lt] at hreg
+          omega
+
+theorem nf_wrapE (L : Ops) (b : Bool) (e : Expr) : nf L (wrapE b e) = nf L e := by cases b <;> rfl
+
+/-- a guarded operand may stand to the right of an infix operator of a looser Python level -/
+theorem right_ok {P : BOp} {s : Str} (hP : P.cpp = some s) {e : Node} (hk : HeadOK e) (hlt : P.level < topLevel e) :
+    okAt cppOps (P.prec - 1 + 1) (head (wrapE (isRegrouped e P.tok) (cppExprL e))) = true := by
+  have hp := prec_facts hP
+  cases hreg : isRegrouped e P.tok with
+  | true => rfl
+  | false =>
+    simp only [wrapE, Bool.false_eq_true, ↓reduceIte]
+    rcases hk with h | ⟨c, h, hc⟩ | ⟨o, so, h, ho, hlv, hmin⟩
+    · rw [h]; rfl
+    · rw [h]; simp only [okAt, hc]; simp; omega
+    · have h1 := hmin _ hreg
+      rw [precOf_tok hP] at h1
+      have h2 := prec_ne_of_level hP ho (by omega)
+      have ho' := prec_facts ho
+      rw [h]; simp only [okAt, ho'.2.1]; simp; omega
+
+/-- … and as the first operand of a chain of a looser Python level -/
+theorem left_ok {P : BOp} {s : Str} (hP : P.cpp = some s) {e : Node} (hk : HeadOK e) :
+    okL cppOps (P.prec - 1) (head (wrapE (isRegrouped e P.tok) (cppExprL e))) = true := by
+  have hp := prec_facts hP
+  cases hreg : isRegrouped e P.tok with
+  | true => rfl
+  | false =>
+    simp only [wrapE, Bool.false_eq_true, ↓reduceIte]
+    rcases hk with h | ⟨c, h, hc⟩ | ⟨o, so, h, ho, hlv, hmin⟩
+    · rw [h]; rfl
+    · rw [h]; simp only [okL, hc]; simp; omega
+    · have h1 := hmin _ hreg
+      rw [precOf_tok hP] at h1
+      have ho' := prec_facts ho
+      rw [h]; simp only [okL, ho'.2.1]; simp; omega
+
+mutual
+/-- **by construction**: the tree the guarded emitter spells is in C++ normal form -/
+theorem nf_cpp : ∀ (n : Node), core n = true → wf n = true → cmpChainFree n = true → nf cppOps (cppExprL n) = true
+  | .atom _ _, _, _, _ => rfl
+  | .group e, hc, hw, hf => by
+    simpa [cppExprL, nf] using nf_cpp e (by simpa [core] using hc) (by simpa [wf] using hw) (by simpa [cmpChainFree] using hf)
+  | .factor op e, hc, hw, hf => by
+    simp only [wf, Bool.and_eq_true, decide_eq_true_eq] at hw
+    have hce : core e = true := by simpa [core] using hc
+    have ih := nf_cpp e hce hw.2 (by simpa [cmpChainFree] using hf)
+    simp only [cppExprL, nf, slotOk, cppOps_pre_uop, Bool.and_eq_true, nf_wrapE]
+    refine ⟨?_, ih⟩
+    cases hs : sameSign op e with
+    | true => rfl
+    | false =>
+      simp only [wrapE, Bool.false_eq_true, ↓reduceIte]
+      rcases headOK e hce hw.2 with h | ⟨c, h, hc'⟩ | ⟨o, so, h, ho, hlv, _⟩
+      · rw [h]; rfl
+      · rw [h]; simp [okAt, hc']
+      · have := level_le_nine o
+        simp only [factorLevel] at hw; omega
+  | .notCompare e, hc, hw, hf => by
+    simp only [wf, Bool.and_eq_true, decide_eq_true_eq] at hw
+    have hce : core e = true := by simpa [core] using hc
+    have ih := nf_cpp e hce hw.2 (by simpa [cmpChainFree] using hf)
+    simp only [cppExprL, nf, slotOk, cppOps_pre_bang, Bool.and_eq_true, nf_wrapE]
+    refine ⟨?_, ih⟩
+    cases hreg : isRegrouped e ['!'] with
+    | true => rfl
+    | false =>
+      simp only [wrapE, Bool.false_eq_true, ↓reduceIte]
+      rcases headOK e hce hw.2 with h | ⟨c, h, hc'⟩ | ⟨o, so, h, ho, hlv, hmin⟩
+      · rw [h]; rfl
+      · rw [h]; simp [okAt, hc']
+      · have h1 := hmin _ hreg
+        have := (prec_facts ho).2.2.2
+        rw [precOf_bang] at h1; omega
+  | .chain lv fty first rest, hc, hw, hf => by
+    simp only [core, Bool.and_eq_true] at hc
+    simp only [wf, Bool.and_eq_true, decide_eq_true_eq] at hw
+    obtain ⟨⟨⟨⟨hlt, _⟩, hwf⟩, hlen⟩, hwr⟩ := hw
+    simp only [cmpChainFree, Bool.and_eq_true, Bool.not_eq_true'] at hf
+    obtain ⟨⟨hcmp, hff⟩, hfr⟩ := hf
+    cases rest with
+    | nil => simp [Rest.length] at hlen
+    | cons op d ty e rest' =>
+      simp only [coreRest, Bool.and_eq_true, Bool.not_eq_true'] at hc
+      obtain ⟨hcf, ⟨⟨⟨hcpp, _⟩, hce⟩, hcr⟩⟩ := hc
+      simp only [wfRest, Bool.and_eq_true, decide_eq_true_eq] at hwr
+      obtain ⟨⟨⟨⟨hlv, hlte⟩, _⟩, hwe⟩, hwr'⟩ := hwr
+      simp only [cmpChainFreeRest, Bool.and_eq_true] at hfr
+      obtain ⟨s, hs⟩ := Option.isSome_iff_exists.mp hcpp
+      have hp := prec_facts hs
+      have ihf := nf_cpp first hcf hwf hff
+      have ihe := nf_cpp e hce hwe hfr.1
+      simp only [cppExprL, Rest.firstTok, cppRestL]
+      apply nf_cppTail rest' lv ty _ op s hcr hwr' hfr.2 ?_ ?_ rfl hs hlv
+      · intro hl
+        cases rest' with
+        | nil => rfl
+        | cons _ _ _ _ _ => simp [hl, Rest.length, cmpLevel] at hcmp
+      · simp only [nf, slotOk, hp.2.1, Bool.and_eq_true, nf_wrapE]
+        exact ⟨⟨⟨left_ok hs (headOK first hcf hwf), right_ok hs (headOK e hce hwe) (by omega)⟩, ihf⟩, ihe⟩
+  | .ternary _ _ _, hc, _, _ => by simp [core] at hc
+theorem nf_cppTail : ∀ (rest : Rest) (lv : Nat) (pty : Ty) (acc : Expr) (o : BOp) (so : Str), coreRest pty rest = true →
+    wfRest lv rest = true → cmpChainFreeRest rest = true → (lv = cmpLevel → rest = .nil) → nf cppOps acc = true →
+    head acc = .bin o.code → o.cpp = some so → o.level = lv → nf cppOps (cppRestL acc rest) = true
+  | .nil, _, _, _, _, _, _, _, _, _, hn, _, _, _ => by simpa [cppRestL] using hn
+  | .cons op d ty e rest, lv, pty, acc, o, so, hc, hw, hf, hcmp, hn, hh, ho, hol => by
+    simp only [coreRest, Bool.and_eq_true, Bool.not_eq_true'] at hc
+    obtain ⟨⟨⟨hcpp, _⟩, hce⟩, hcr⟩ := hc
+    simp only [wfRest, Bool.and_eq_true, decide_eq_true_eq] at hw
+    obtain ⟨⟨⟨⟨hlv, hlte⟩, _⟩, hwe⟩, hwr⟩ := hw
+    simp only [cmpChainFreeRest, Bool.and_eq_true] at hf
+    obtain ⟨s, hs⟩ := Option.isSome_iff_exists.mp hcpp
+    have hp := prec_facts hs
+    have hne : lv ≠ cmpLevel := fun h => by cases hcmp h
+    have heq : op.prec = o.prec := prec_eq_of_level hs ho (by omega) (by omega)
+    have ihe := nf_cpp e hce hwe hf.1
+    simp only [cppRestL]
+    apply nf_cppTail rest lv ty _ op s hcr hwr hf.2 (fun h => absurd h hne) ?_ rfl hs hlv
+    simp only [nf, slotOk, hp.2.1, Bool.and_eq_true, nf_wrapE]
+    refine ⟨⟨⟨?_, right_ok hs (headOK e hce hwe) (by omega)⟩, hn⟩, ihe⟩
+    rw [hh]; simp only [okL, (prec_facts ho).2.1]; simp; omega
+end
 
 /-! ## grammar-producible trees are in Python normal form -/
 
